@@ -36,6 +36,7 @@ def gen_type(r, depth, maxd, in_record=False, field=False):
     elif depth < maxd:
         kinds += ["list", "list", "reg", "rec", "rec", "unmasked"]
         if not in_record:
+            kinds += ["idx"]
             # below a RecordArray the builder loses its place on 'null' and 'tag' (they are not routed through the
             # record node): option and union fields are outside what this version implements
             kinds += ["opt", "union"]
@@ -53,14 +54,17 @@ def gen_type(r, depth, maxd, in_record=False, field=False):
     if k == "opt":
         # 'null' must mean this node: the content may not itself start with an optional value
         t = gen_type(r, depth + 1, maxd, in_record)
-        while t[0] in ("opt", "union", "unmasked") or "null" in first_cmds(t):
+        while t[0] in ("opt", "union", "unmasked", "idx") or "null" in first_cmds(t):
             t = gen_type(r, depth + 1, maxd, in_record)
         return ["opt", t]
     if k == "unmasked":
         t = gen_type(r, depth + 1, maxd, in_record)
-        while t[0] in ("opt", "union", "unmasked"):
+        while t[0] in ("opt", "union", "unmasked", "idx"):
             t = gen_type(r, depth + 1, maxd, in_record)
         return ["unmasked", t]
+    if k == "idx":
+        # IndexedArray over a numeric leaf; "categorical": equal values share one content item
+        return ["idx", ["num", r.choice(["bool", "int64", "float64"])], r.random() < 0.6, r.choice(["i32", "i64"])]
     if k == "rec":
         n = r.choice([1, 2, 2, 3])
         return ["rec", [[key, gen_type(r, depth + 1, maxd, True, True)] for key in r.sample(KEYS, n)]]
@@ -77,7 +81,7 @@ def first_cmds(t):
         return {"string"}
     if k == "list":
         return {"begin_list"}
-    if k in ("reg", "unmasked"):
+    if k in ("reg", "unmasked", "idx"):
         return first_cmds(t[1])
     if k == "opt":
         return {"null"} | first_cmds(t[1])
@@ -104,6 +108,11 @@ def form_of(t):
         return {"class": "IndexedOptionArray64", "index": "i64", "content": form_of(t[1])}
     if k == "unmasked":
         return {"class": "UnmaskedArray", "content": form_of(t[1])}
+    if k == "idx":
+        f = {"class": "IndexedArray64" if t[3] == "i64" else "IndexedArray32", "index": t[3], "content": form_of(t[1])}
+        if t[2]:
+            f["parameters"] = {"__array__": "categorical"}
+        return f
     if k == "rec":
         return {"class": "RecordArray", "contents": {key: form_of(sub) for key, sub in t[1]}}
     if k == "union":
@@ -131,6 +140,11 @@ def gen_value(r, t):
         return [gen_value(r, t[1]) for _ in range(t[2])]
     if k == "opt":
         return None if r.random() < 0.3 else gen_value(r, t[1])
+    if k == "idx":
+        v = gen_value(r, t[1])
+        if t[2] and isinstance(v, float) and v == 0.0:
+            v = 0.0      # a categorical array keeps one item per class of *equal* values: -0.0 and 0.0 are one category
+        return v
     if k == "unmasked":
         return gen_value(r, t[1])
     if k == "rec":
@@ -179,7 +193,7 @@ def commands(v, t, out):
             out.append(["null"])
         else:
             commands(v, t[1], out)
-    elif k == "unmasked":
+    elif k in ("unmasked", "idx"):
         commands(v, t[1], out)
     elif k == "rec":
         for (key, x), (_, sub) in zip(v[2], t[1]):
@@ -237,7 +251,7 @@ def allowed_next(t, cmds_so_far):
             return first(t[1])
         if k == "opt":
             return {"null"} | first(t[1])
-        if k == "unmasked":
+        if k in ("unmasked", "idx"):
             return first(t[1])
         if k == "rec":
             return first(t[1][0][1])
@@ -272,7 +286,7 @@ def allowed_next(t, cmds_so_far):
                 pos[0] += 1
             else:
                 eat(t[1])
-        elif k == "unmasked":
+        elif k in ("unmasked", "idx"):
             eat(t[1])
         elif k == "rec":
             for _, sub in t[1]:
@@ -413,7 +427,7 @@ def execute(node, case, rec, opts):
 def _kinds(t, out=None):
     out = out if out is not None else []
     out.append("list:la" if t[0] == "list" and len(t) > 2 else t[0] if t[0] != "num" else "num:" + t[1])
-    if t[0] in ("list", "reg", "opt", "unmasked"):
+    if t[0] in ("list", "reg", "opt", "unmasked", "idx"):
         _kinds(t[1], out)
     elif t[0] == "rec":
         for _, sub in t[1]:
@@ -429,7 +443,7 @@ def _ntags(t, cmds):
     def find(t):
         if t[0] == "union":
             return len(t[1])
-        if t[0] in ("list", "reg", "opt", "unmasked"):
+        if t[0] in ("list", "reg", "opt", "unmasked", "idx"):
             return find(t[1])
         if t[0] == "rec":
             return max(find(sub) for _, sub in t[1])
@@ -450,6 +464,10 @@ def describe(case):
 def simpler_types(t):
     """structurally smaller types: a child in place of the node, or one child made simpler"""
     k = t[0]
+    if k == "idx":
+        yield t[1]
+        if t[2]:
+            yield ["idx", t[1], False, t[3]]
     if k in ("list", "reg", "opt", "unmasked"):
         yield t[1]
         for sub in simpler_types(t[1]):
